@@ -73,6 +73,9 @@ from nucs.solvers.solver import Solver, decrease_max, get_solution, increase_min
 
 logger = logging.getLogger(__name__)
 
+STACK_MARGIN = 2  # extra levels that can be used between two checks of the height of the stacks
+STACK_MAX_HEIGHT_LIMIT = 254  # the top of the stacks is stored as an uint8
+
 
 class BacktrackSolver(Solver):
     """
@@ -119,9 +122,13 @@ class BacktrackSolver(Solver):
         self.consistency_alg_idx = consistency_alg_idx
         self.triggered_propagators = np.ones(problem.propagator_nb, dtype=np.bool)
         logger.debug("Initializing choice points")
-        self.shr_domains_stack = np.empty((stack_max_height, self.problem.shr_domain_nb, 2), dtype=np.int32)
-        self.not_entailed_propagators_stack = np.empty((stack_max_height, self.problem.propagator_nb), dtype=np.bool)
-        self.dom_update_stack = np.empty((stack_max_height, 2), dtype=np.uint16)
+        if not 1 <= stack_max_height <= STACK_MAX_HEIGHT_LIMIT:
+            raise ValueError(f"stack_max_height must be in [1, {STACK_MAX_HEIGHT_LIMIT}]")  # the top is an uint8
+        # a domain heuristic can push two levels and shaving borrows one more before the height is checked again
+        stack_height = stack_max_height + STACK_MARGIN
+        self.shr_domains_stack = np.empty((stack_height, self.problem.shr_domain_nb, 2), dtype=np.int32)
+        self.not_entailed_propagators_stack = np.empty((stack_height, self.problem.propagator_nb), dtype=np.bool)
+        self.dom_update_stack = np.empty((stack_height, 2), dtype=np.uint16)
         self.stacks_top = np.ones((1,), dtype=np.uint8)
         logger.info(f"Choice points stack has a maximal height of {stack_max_height}")
         cp_init(
@@ -545,6 +552,8 @@ def solve_one(
             statistics[STATS_IDX_SOLVER_SOLUTION_NB] += 1
             return get_solution(shr_domains_stack, stacks_top, dom_indices_arr, dom_offsets_arr)
         elif status == PROBLEM_UNBOUND:
+            if int(stacks_top[0]) + 1 >= shr_domains_stack.shape[0] - STACK_MARGIN:
+                raise IndexError("the choice points stack is full, stack_max_height should be increased")
             dom_idx = var_heuristic_fct(var_heuristic_params, decision_domains, shr_domains_stack, stacks_top)
             events = dom_heuristic_fct(
                 dom_heuristic_params,
